@@ -1,10 +1,56 @@
 N = {"quick": 400, "thorough": 20000}
 EXHAUSTIVE = {"quick": False, "thorough": True}
-RULE = "tbd"
-ASSUMPTIONS = []
+RULE = ("random cases: a configuration (latency in {0,1,2,7,100,101} ms, fee in {0,0.001,0.01,0.1,0.25,1} and occasionally -0.01, 1-4 assets with "
+        "balances 0 / small / 2-3 decimal places / occasionally negative, 0-3 instruments over those assets incl. base = quote) followed by up to 25 (quick) / "
+        "60 (thorough) requests. 70 % of the cases go through MockExecution + MockExchange::run on a paused-clock tokio runtime with an injected client clock "
+        "(open / snap / balances / orders / trades since / cancel; monotone and non-monotone request times), 30 % call MockExchange::open_order and "
+        "account_snapshot directly; a quarter of the direct cases are ill-formed (an instrument asset without balance, or total != free) and end at the first "
+        "order that can panic. Orders: buy/sell, market 90 % / limit 10 %, known / unknown instrument, prices incl. 0 and negative, quantities incl. 0, negative "
+        "and 3 decimal places. Thorough additionally enumerates every sequence of length <= 4 over 7 request symbols (6 for direct) on one instrument in both "
+        "modes (4 356 cases). A case is distinct by the SHA-1 of its op lines and non-trivial when the implementation's observation blocks differ at least once")
+ASSUMPTIONS = [
+    "configuration well formed: every initial balance has total = free and both assets of every configured instrument have a balance "
+    "(otherwise MockExchange::open_order panics on its own assert_eq!/expect; model and harness both report `panic`, the spec is silent)",
+    "the initial account snapshot carries no orders (the exchange never creates any: orders_open / instruments of a snapshot stay empty)",
+    "asset and instrument names are distinct (hash-map keys); initial balances >= 0 only for the non_negative theorem",
+    "'quantity' in the required amounts is the magnitude |q| (the code takes quantity.abs()); fee percentage, prices and quantities are otherwise arbitrary",
+    "exact rational arithmetic (rust_decimal rounding/overflow not modelled; generated decimals keep + - x exact)",
+    "a subscriber exists on the broadcast channel and it does not lag (capacity 256)",
+]
 SOURCE_FILES = ["barter-execution/src/exchange/mock/mod.rs", "barter-execution/src/exchange/mock/account.rs",
                 "barter-execution/src/client/mock/mod.rs", "barter/src/execution/builder.rs"]
+
+
+def signature(ops, k, key, impl_line, spec_line):
+    """clause of the property that failed + discriminating class of the request"""
+    op = ops[k].split() if k < len(ops) else ["?"]
+    mode = ops[0].split()[1] if ops and len(ops[0].split()) > 1 else "?"
+    cls = op[0]
+    if op[0] == "open" and len(op) >= 5:
+        cls = "open_%s_%s" % ({"B": "buy", "S": "sell"}.get(op[3], "?"), {"M": "market", "L": "limit"}.get(op[4], "?"))
+    clause = {"resp": "accept_iff_funds", "open": "fresh_id", "notif": "one_balance_one_trade_notification", "nbal": "exact_debit",
+              "ntrade": "one_fill", "ntrade_time": "one_fill", "bal": "ledger", "trades": "trade_query", "trade": "trade_query"}.get(key, key)
+    return "clause=%s/op=%s/mode=%s" % (clause, cls, mode)
+
+
 CLAIM = True
-TECHNIQUE = "tbd"
-LEVEL_TEXT = "tbd"
-LEVEL_NOTE = "tbd"
+TECHNIQUE = ("Lean 4: case analysis of open_order into its six paths, state invariants (well-formedness, non-negativity, id sequence) by induction over "
+             "request histories, and a refinement invariant to a history-only ledger specification (balance = initial - debits of the accepted orders); "
+             "correspondence of the model with MockExchange::open_order / account_snapshot called directly and with MockExecution + MockExchange::run")
+LEVEL_TEXT = ("Proof. Lean theorems over the mock-exchange model (lean/BarterModel/Props/C08.lean), all full strength, for every configuration, state and request "
+              "history (unbounded), any fee percentage, price and quantity: accept_iff_funds / step_accept_iff_funds (an order is accepted iff it is a market order on a "
+              "known instrument and the spent asset - quote for a buy, base for a sell - holds at least price*|q|*(1+fee) resp. |q|*(1+fee); limit_rejected, "
+              "unknown_instrument_rejected, rejected_iff_not_funds); exact_debit, others_untouched, rejected_untouched, step_untouched (exactly that asset is lowered by "
+              "exactly that amount, everything else and every non-accepted request leaves balances, trades and the id counter alone); non_negative (no balance ever "
+              "negative from non-negative initial balances, no other hypothesis); one_fill, no_fill, ids_fresh (one trade per accepted order, trade id = order id = "
+              "counter, ids 0..n-1 hence distinct, fees = fee * price * |q| in quote, exactly one balance then one trade notification; none on rejection); refines_spec, "
+              "responses_refine, queries_refine, direct_refines (after any history the ledger, the recorded trades, every order answer, snapshot, balance and "
+              "trades-since answer equal the history-only specification computed from the accepted orders alone); reach_wf, never_panics. No `_partial` theorem. "
+              "The model is tied to the code on every run by executing the same request sequences against the real MockExchange, directly and through "
+              "MockExecution + MockExchange::run.")
+LEVEL_NOTE = ("Trusted: Lean kernel; axioms propext/Classical.choice/Quot.sound only; the hand-written model (tied by sampled correspondence: 400 quick / 20k random + "
+              "4 356 enumerated short sequences thorough); harness and driver; tokio paused clock. Hypotheses: well-formed configuration (total = free, instrument assets "
+              "have balances - the exchange's own assert/expect; reach_wf shows they persist), initial balances >= 0 for non_negative only. Quantity means |q|. "
+              "Decimal rounding/overflow, broadcast lag/no-subscriber, request-loop shutdown and the unanswered cancel request (response sender dropped; modelled as "
+              "`dropped`, not part of this property) are outside the theorems. Buying does not credit the base asset and selling does not credit the quote asset in "
+              "the code; the property does not ask for it and the theorems state exactly that only the spent asset changes.")
